@@ -427,7 +427,20 @@ def _phi(ts):
     return u[0] if len(u) == 1 else ("phi", tuple(u))
 
 
+NODEF = ("nodef",)
+
+
 def field(t, name, idx):
+    # a field of a struct local that is filled piece by piece (`acc.sni = x; acc.alpn = y; .. acc.sni`): the assignment to that very
+    # field; assignments to other fields do not define it
+    if t[0] == "partial" and t[1] and t[1][0][0] == "f":
+        if t[1][0][1] in (name, idx):
+            return t[2] if len(t[1]) == 1 else ("partial", t[1][1:], t[2])
+        return NODEF
+    if t[0] == "phi" and any(x[0] == "partial" for x in t[1]):
+        alts = [field(x, name, idx) for x in t[1]]
+        alts = [a for a in alts if a != NODEF]
+        return _phi(tuple(alts)) if alts else NODEF
     # payload of a variant of a merged value: the payloads of the alternatives that can be that variant
     if t[0] == "downcast" and strip(t[1])[0] == "phi":
         alts = [a for a in strip(t[1])[1] if not (strip(a)[0] == "agg" and strip(a)[3] not in (None, t[2]))]
